@@ -30,6 +30,25 @@ def run_case(case, rec, cid):
     desc = case["rec"]
     rnd = random.Random(case["seed"])
     r = recur.build(desc)
+    if case.get("twin"):
+        # first, in the same process: EQUAL recurrences (same instants, same interval) whose anchor is written differently - another
+        # offset, another date representation - are indexed and queried; with a month/year interval their members differ from r's
+        from harness.common import TimeRecurrence, mk_dur, mk_tp, respellings
+        for q in respellings(mk_tp(desc["a"]), rnd):
+            try:
+                kw = dict(start_point=q) if desc["fmt"] == 3 else dict(end_point=q)
+                tw = TimeRecurrence(repetitions=desc["n"] or None, duration=mk_dur(desc["d"]), **kw)
+                hash(tw), tw == r
+                for i in range(3):
+                    try:
+                        tw[i]
+                    except IndexError:
+                        pass
+                tw.get_is_valid(q), tw.get_next(q), tw.get_prev(q)
+                if desc["fmt"] == 3:
+                    tw.get_first_after(q)
+            except Exception:  # noqa: BLE001  (whatever the twins do is not what this case judges)
+                pass
     if recur.known_class(desc) or case.get("given"):
         # the iteration of this class is a recorded C12 finding: C13 speaks about what iteration yields, so the series is
         # handed to the specification as given and only the queries are judged
@@ -196,7 +215,14 @@ def expand(job):
         if rnd.random() < 0.2 and desc["fmt"] == 3 and desc["a"]["prec"] == "hms" and recur.is_exact(desc["d"]) \
                 and not any(desc["d"].get(k_) for k_ in ("mi", "s")) and any(desc["d"].values()):
             desc["a"] = dict(desc["a"], dec=rnd.choice(["5", "75", "25"]))      # dyadic fraction: float arithmetic stays exact
+        twin = desc["fmt"] != 1 and desc["a"]["prec"] == "hms" and not desc["a"].get("dec") and desc["a"]["hh"] != 24 and rnd.random() < 0.3
+        if desc["fmt"] != 1 and rnd.random() < 0.12:
+            desc["dvia"] = "arith"       # the interval is the result of Duration arithmetic on operands used before
+        if rnd.random() < 0.06:
+            desc["pre"] = "overlap"      # earlier, overlapping passes over the same object
         case = {"mode": sp, "rec": desc, "seed": rnd.randrange(10 ** 9), "win": rnd.random() < 0.5}
+        if twin:
+            case["twin"] = True
         if rnd.random() < 0.08 and desc["fmt"] == 3 and not recur.is_exact(desc["d"]) and desc["a"]["prec"] == "hms" and not desc["a"].get("dec"):
             # a 24:00 start with a month/year interval: which of the two readings iteration follows is not fixed, so the series is
             # taken as given; the queries and a second iteration must agree with it
